@@ -81,7 +81,7 @@ theorem applySyllMods_eq (σ : Syll) (al : Alphas) (stress sec : Option Bool) (t
        | some st => .ok { σ with stress := st, tone := tone.getD σ.tone }
        | none => .err "SecStrPosStrNeg") := by
   rcases stress with _ | _ | _ <;> rcases sec with _ | _ | _ <;> cases tone <;>
-    simp [applySyllMods, bin, setStress, ModKind.asBool] <;>
+    simp [applySyllMods, newStress, bin, setStress, ModKind.asBool] <;>
     (try (cases σ.stress <;> simp)) <;> rfl
 
 theorem runLen_replicate (x : Seg) (k : Nat) (post : List Seg) (h : post.head? ≠ some x) :
